@@ -536,19 +536,19 @@ pub fn run_desc_depth(out: &mut Out) {
         let built: Result<Result<String, String>, ()> = catch_unwind(AssertUnwindSafe(|| {
             let d: Result<Descriptor<Pk>, String> = match wrapper {
                 "wsh" => Miniscript::<Pk, Segwitv0>::from_str(&deep_sane_ms(h, false))
-                    .map_err(|e| e.to_string())
-                    .and_then(|ms| Descriptor::new_wsh(ms).map_err(|e| e.to_string())),
+                    .map_err(|e| format!("{:?}", e))
+                    .and_then(|ms| Descriptor::new_wsh(ms).map_err(|e| format!("{:?}", e))),
                 "sh-wsh" => Miniscript::<Pk, Segwitv0>::from_str(&deep_sane_ms(h, false))
-                    .map_err(|e| e.to_string())
-                    .and_then(|ms| Descriptor::new_sh_wsh(ms).map_err(|e| e.to_string())),
-                _ => Miniscript::<Pk, Tap>::from_str(&deep_sane_ms(h, true)).map_err(|e| e.to_string()).and_then(|ms| {
+                    .map_err(|e| format!("{:?}", e))
+                    .and_then(|ms| Descriptor::new_sh_wsh(ms).map_err(|e| format!("{:?}", e))),
+                _ => Miniscript::<Pk, Tap>::from_str(&deep_sane_ms(h, true)).map_err(|e| format!("{:?}", e)).and_then(|ms| {
                     let mut tree = TapTree::leaf(ms);
                     for _ in 0..t {
-                        let side = Miniscript::<Pk, Tap>::from_str(&format!("pk({})", X2)).map_err(|e| e.to_string())?;
-                        tree = TapTree::combine(tree, TapTree::leaf(side)).map_err(|e| e.to_string())?;
+                        let side = Miniscript::<Pk, Tap>::from_str(&format!("pk({})", X2)).map_err(|e| format!("{:?}", e))?;
+                        tree = TapTree::combine(tree, TapTree::leaf(side)).map_err(|e| format!("{:?}", e))?;
                     }
-                    let k = Pk::from_str(X1).map_err(|e| e.to_string())?;
-                    Descriptor::new_tr(k, Some(tree)).map_err(|e| e.to_string())
+                    let k = Pk::from_str(X1).map_err(|e| format!("{:?}", e))?;
+                    Descriptor::new_tr(k, Some(tree)).map_err(|e| format!("{:?}", e))
                 }),
             };
             d.map(|d| d.to_string())
@@ -560,7 +560,8 @@ pub fn run_desc_depth(out: &mut Out) {
             }
             Ok(Err(e)) => {
                 // the library refuses to construct it: nothing to round-trip
-                let why = if e.contains("non-push opcodes") { "op-limit" } else if e.contains("recursion depth") { "depth" } else { "other" };
+                // `e` is the Debug form of the error: variant names are API, message wording is not
+                let why = if e.contains("ImpossibleSatisfaction") || e.contains("MaxOpCountExceeded") { "op-limit" } else if e.contains("MaxRecursiveDepthExceeded") || e.contains("MaxRecursionDepthExceeded") { "depth" } else { "other" };
                 out.count(&format!("descdepth {} taptree-depth={} leaf-height={} not-constructible:{}", wrapper, t, h, why));
             }
             Ok(Ok(printed)) => {
@@ -569,7 +570,8 @@ pub fn run_desc_depth(out: &mut Out) {
                         if d2.to_string() == printed { "accepted".to_string() } else { "reprint-differs".to_string() }
                     }
                     Ok(Err(e)) => {
-                        if e.to_string().contains("maximum recursion depth") {
+                        // classified by the variant name (Debug), not by the wording of the message
+                        if format!("{:?}", e).contains("MaxRecursionDepthExceeded") {
                             "rejected:MaxRecursionDepthExceeded".to_string()
                         } else {
                             "rejected:other".to_string()
